@@ -582,13 +582,11 @@ func (ps *pathState) modelInputs(m model) []ReplayValue {
 				bs[j] = byte(t.eval(m, memo))
 			}
 			rv.Bytes = bs
+		case "uf":
+			rv.Int = int64(in.Terms[0].eval(m, memo))
+			rv.Aux = int64(in.Terms[1].eval(m, memo))
 		default:
-			v := in.Terms[0].eval(m, memo)
-			rv.Int = int64(v)
-			if in.Terms[0].w < 64 && in.Terms[0].w > 0 {
-				// keep unsigned for bytes; sign-extend others by kind at replay time
-				rv.Int = int64(v)
-			}
+			rv.Int = int64(in.Terms[0].eval(m, memo))
 		}
 		out = append(out, rv)
 	}
@@ -600,6 +598,7 @@ type ReplayValue struct {
 	Kind  string `json:"kind"`
 	Tag   string `json:"tag"`
 	Int   int64  `json:"int"`
+	Aux   int64  `json:"aux,omitempty"` // uf: the ok flag
 	Bytes []byte `json:"bytes,omitempty"`
 }
 
